@@ -278,6 +278,14 @@ def _r4(ctx):
                 ctx.check(rp is not None and rp[2] == (f,), "R4", "ttl-copy:field=%s" % f, where,
                           "cached copy: `%s` must be copied unchanged" % f)
         # the per-record closures: RR aggregates whose only changed field is ttl = Sub(x.ttl, decrement)
+        rr_closures = {c.id for c in P.family(fid) if c.kind == "closure" and list(find_aggs(P, "dns::dnspkt::RR", [c]))}
+        for b, bb, idx, s in find_aggs(P, "dns::dnspkt::DNSPkt", [body]):
+            fields = dict(T.rvalue(s["rv"], bb, idx)[3])
+            for f in SECTIONS:
+                n += 1
+                used = {closure_def_of_term(x) for x in subterms(norm(fields[f])) if x[0] == "agg" and str(x[1]).startswith("closure:")}
+                ctx.check(bool(used) and used <= rr_closures, "R4", "ttl-copy:section=%s:records-rebuilt-by-a-checked-closure" % f, ctx.where(body, s["sp"]),
+                          "each record of the section is rebuilt by a closure of this function that the rr.* rules look at (uses %s)" % sorted(used))
         for c in P.family(fid):
             if c.kind != "closure":
                 continue
@@ -308,7 +316,8 @@ def _r4(ctx):
                     good = v[0] == "field" and v[2] == f
                     ctx.check(good, "R4", "ttl-copy:rr.%s=unchanged" % f, where,
                               "cached record field `%s` must be copied from the same record, it is %s" % (f, show(v)))
-    ctx.floor("R4", "cached-copy obligations", n, 6 + 3 * 5)
+    # 6 message-level + 3 section-through-closure + 5 per record-building closure (one shared closure is as good as three)
+    ctx.floor("R4", "cached-copy obligations", n, 6 + 3 + 5)
 
 
 NORMALISERS = ("eq_ignore_ascii_case", "to_ascii_lowercase", "to_ascii_uppercase", "make_ascii_lowercase", "make_ascii_uppercase",
